@@ -49,6 +49,61 @@ var toFns = []toFn{
 	}},
 }
 
+const c08Sentinel = "urn:sentinel:written-in-callback"
+
+type c08OnFn struct {
+	name   string
+	member bool // the callback appends a member instead of setting the id
+	call   func(ap.Item) (called bool, err error)
+}
+
+func c08SetID(view any) {
+	reflect.ValueOf(view).Elem().FieldByName("ID").SetString(c08Sentinel)
+}
+
+func onStruct[T any, F ~func(*T) error](name string, f func(ap.Item, F) error) c08OnFn {
+	return c08OnFn{name: name, call: func(it ap.Item) (called bool, err error) {
+		err = f(it, func(v *T) error {
+			if v != nil {
+				called = true
+				c08SetID(v)
+			}
+			return nil
+		})
+		return called, err
+	}}
+}
+
+var c08OnFns = []c08OnFn{
+	onStruct("OnObject", ap.OnObject), onStruct("OnActor", ap.OnActor), onStruct("OnActivity", ap.OnActivity),
+	onStruct("OnIntransitiveActivity", ap.OnIntransitiveActivity), onStruct("OnQuestion", ap.OnQuestion),
+	onStruct("OnCollection", ap.OnCollection), onStruct("OnCollectionPage", ap.OnCollectionPage),
+	onStruct("OnOrderedCollection", ap.OnOrderedCollection), onStruct("OnOrderedCollectionPage", ap.OnOrderedCollectionPage),
+	onStruct("OnPlace", ap.OnPlace), onStruct("OnProfile", ap.OnProfile), onStruct("OnRelationship", ap.OnRelationship),
+	onStruct("OnTombstone", ap.OnTombstone),
+	onStruct("OnLink", func(it ap.Item, fn ap.WithLinkFn) error { return ap.OnLink(it, fn) }),
+	{name: "OnCollectionIntf", member: true, call: func(it ap.Item) (called bool, err error) {
+		err = ap.OnCollectionIntf(it, func(c ap.CollectionInterface) error {
+			if !ap.IsNil(c) {
+				called = true
+				return c.Append(ap.IRI(c08Sentinel))
+			}
+			return nil
+		})
+		return called, err
+	}},
+	{name: "OnItemCollection", member: true, call: func(it ap.Item) (called bool, err error) {
+		err = ap.OnItemCollection(it, func(c *ap.ItemCollection) error {
+			if c != nil {
+				called = true
+				*c = append(*c, ap.IRI(c08Sentinel))
+			}
+			return nil
+		})
+		return called, err
+	}},
+}
+
 func c08Ren(n string) string {
 	switch n {
 	case "Items":
@@ -179,6 +234,45 @@ func runC08(seed int64, n int, tier string, outDir string) (*Report, error) {
 				}
 				idx++
 			}
+		}
+	}
+	// the On* helpers hand the view to a callback: a write made there through a view of a POINTER must be seen by
+	// the original (same sources as above, pointer form only)
+	for _, on := range c08OnFns {
+		for _, rt := range structTypes {
+			src := g.Struct(rt, opts)
+			sv := reflect.ValueOf(src)
+			if sv.Kind() != reflect.Pointer {
+				continue
+			}
+			rep.Evaluations++
+			rep.Count("on-helper-write-through")
+			func() {
+				defer func() {
+					if r := recover(); r != nil {
+						rep.Violate(Violation{Op: on.name + " callback write", Input: CoqItem(src), Expected: "no panic", Observed: fmt.Sprint(r)})
+					}
+				}()
+				before := uint(0)
+				if c, ok := src.(ap.CollectionInterface); ok {
+					before = c.Count()
+				}
+				called, err := on.call(src)
+				if err != nil || !called {
+					return
+				}
+				seen := false
+				if on.member {
+					c, ok := src.(ap.CollectionInterface)
+					seen = ok && c.Count() == before+1 && c.Contains(ap.IRI(c08Sentinel))
+				} else {
+					seen = sv.Elem().FieldByName("ID").String() == c08Sentinel
+				}
+				if !seen {
+					rep.Violate(Violation{Op: on.name + " callback write", Input: fmt.Sprintf("%T", src) + " " + CoqItem(src),
+						Expected: "a write through the view handed to the callback is seen by the original", Observed: "original unchanged"})
+				}
+			}()
 		}
 	}
 	// the same matrix under the runtime's pointer checker
